@@ -393,6 +393,56 @@ def generic_rules():
     ]
 
 
+def round3():
+    """rules added after the third seeding round: firing mutants and equivalent re-spellings that must stay silent"""
+    from mutants import R, MISC, S_PUB, ARK, INTERP, EM, PF, JAC, EXTRAP
+    IMPL = "xitorch/_impls/linalg/symeig.py"
+    ms = [
+        # abstract dictionary semantics of set_default_option
+        R("r3-merge-unpack-ok", "C18", MISC, "    res = copy.copy(defopt)\n    res.update(opt)\n    return res", "    return {**defopt, **opt}", expect="silent"),
+        R("r3-merge-dictcall-ok", "C13", MISC, "    res = copy.copy(defopt)\n    res.update(opt)\n    return res", "    res = dict(defopt)\n    for k, v in opt.items():\n        res[k] = v\n    return res", expect="silent"),
+        R("r3-merge-reversed", "C18", MISC, "    res = copy.copy(defopt)\n    res.update(opt)\n    return res", "    return {**opt, **defopt}", "C18-O"),
+        R("r3-merge-drops-none", "C18", MISC, "    res.update(opt)\n    return res", "    res.update({k: v for k, v in opt.items() if v is not None})\n    return res", "C18-O"),
+        R("r3-merge-inplace", "C13", MISC, "    res = copy.copy(defopt)\n    res.update(opt)\n    return res", "    for k, v in defopt.items():\n        opt.setdefault(k, v)\n    return opt", "OPT"),
+        R("r3-merge-alias-shortcut", "C08", MISC, "    res = copy.copy(defopt)\n    res.update(opt)\n    return res", "    if len(opt) == 0:\n        return defopt\n    res = copy.copy(defopt)\n    res.update(opt)\n    return res", "OPT"),
+        # abstract lookup semantics of get_method
+        R("r3-lookup-guard-first-ok", "C18", MISC, "        if methodname in methods:\n            return methods[methodname]\n        else:\n            raise RuntimeError(\"Unknown %s method: %s\" % (algname, method))",
+          "        if methodname not in methods:\n            raise RuntimeError(\"Unknown %s method: %s\" % (algname, method))\n        return methods[methodname]", expect="silent"),
+        R("r3-lookup-get-ok", "C07", MISC, "        if methodname in methods:\n            return methods[methodname]\n        else:\n            raise RuntimeError(\"Unknown %s method: %s\" % (algname, method))",
+          "        res = methods.get(methodname)\n        if res is None:\n            raise RuntimeError(\"Unknown %s method: %s\" % (algname, method))\n        return res", expect="silent"),
+        R("r3-lookup-prefix", "C07", MISC, "        if methodname in methods:\n            return methods[methodname]", "        cands = [k for k in methods if k.startswith(methodname)]\n        if cands:\n            return methods[cands[0]]", "C07-G"),
+        R("r3-lookup-endswith", "C18", MISC, "        if methodname in methods:\n            return methods[methodname]", "        cands = [k for k in methods if methodname.endswith(k)]\n        if cands:\n            return methods[cands[0]]", "C18-R"),
+        # AC12
+        R("r3-saved-alias-ok", "C02", S_PUB, "        return x\n", "        out = x\n        return out\n", expect="silent"),
+        R("r3-saved-clone", "C02", S_PUB, "        return x\n", "        return x.clone()\n", "AC12"),
+        # tolerances
+        R("r3-rtol-float-ok", "C07", ARK, "        self.rtol = rtol", "        self.rtol = float(rtol)", expect="silent"),
+        R("r3-atol-scaled", "C07", ARK, "        self.atol = atol", "        self.atol = atol * 10", "C07-X"),
+        # None defaults
+        R("r3-none-ifexp-ok", "C18", INTERP, "        if method is None:\n            method = \"cspline\"", "        method = \"cspline\" if method is None else method", expect="silent"),
+        R("r3-none-not", "C18", INTERP, "        if method is None:\n            method = \"cspline\"", "        if not method:\n            method = \"cspline\"", "NT"),
+        # identical-objects predicate
+        R("r3-identical-all-ok", "C09", PF, "    for obj1, obj2 in zip(objs1, objs2):\n        if id(obj1) != id(obj2):\n            return False\n    return True", "    return all(o1 is o2 for o1, o2 in zip(objs1, objs2))", expect="silent"),
+        R("r3-identical-index-ok", "C04", PF, "    for obj1, obj2 in zip(objs1, objs2):\n        if id(obj1) != id(obj2):\n            return False\n    return True",
+          "    for i in range(len(objs1)):\n        if objs1[i] is not objs2[i]:\n            return False\n    return True", expect="silent"),
+        R("r3-identical-last-only", "C16", PF, "    for obj1, obj2 in zip(objs1, objs2):\n        if id(obj1) != id(obj2):\n            return False\n    return True",
+          "    res = True\n    for obj1, obj2 in zip(objs1, objs2):\n        res = id(obj1) == id(obj2)\n    return res", "SUB-I"),
+        # mode slices
+        R("r3-take-swapped-arms-ok", "C05", IMPL, "    if mode == \"lowest\":\n        eival = eival[..., :neig]\n        eivec = eivec[..., :neig]\n    else:  # uppest\n        eival = eival[..., -neig:]\n        eivec = eivec[..., -neig:]",
+          "    if mode != \"lowest\":\n        eival = eival[..., -neig:]\n        eivec = eivec[..., -neig:]\n    else:\n        eival = eival[..., :neig]\n        eivec = eivec[..., :neig]", expect="silent"),
+        R("r3-take-explicit-start-ok", "C05", IMPL, "        eival = eival[..., -neig:]\n        eivec = eivec[..., -neig:]", "        i0 = eival.shape[-1] - neig\n        eival = eival[..., i0:]\n        eivec = eivec[..., i0:]", expect="silent"),
+        R("r3-take-off-by-one", "C05", IMPL, "        eival = eival[..., -neig:]\n        eivec = eivec[..., -neig:]", "        i0 = eival.shape[-1] - neig - 1\n        eival = eival[..., i0:]\n        eivec = eivec[..., i0:]", "C05-T"),
+        # traversal criteria
+        R("r3-crit-both-ok", "C10", EM, "    crit = lambda elmt: isinstance(elmt, torch.Tensor) and elmt.dtype in torch_float_type", "    crit = lambda elmt: isinstance(elmt, torch.Tensor) and elmt.is_floating_point()", count=2, expect="silent"),
+        # de-duplication key
+        R("r3-dedup-ptr", "C09", EM, "            id_param = id(param)", "            id_param = param.data_ptr()", "SUB-K"),
+        # extrapolation shapes
+        R("r3-extrap-full-ok", "C14", EXTRAP, "        return torch.empty(shape, dtype=dtype, device=device) * float(\"nan\")", "        return torch.full(shape, float(\"nan\"), dtype=dtype, device=device)", expect="silent"),
+        R("r3-extrap-unbatched", "C14", EXTRAP, "        return torch.zeros(shape, dtype=dtype, device=device) + extrap", "        return torch.zeros_like(xqextrap) + extrap", "C14-V"),
+    ]
+    return ms
+
+
 def seeded():
     """the independently seeded changes kept under /verif/seeded that the property's own check detects"""
     import json
@@ -416,5 +466,5 @@ def seeded():
 
 def all_mutants():
     drop = {"hs-module-memo-used", "c01-abe-no-unswap", "c07-rk4-other-order4", "c07-rk45-A", "c07-erk-two-steps-per-interval", "c07-packer-offset"}
-    ms = [m for m in c05() + c06() + c07() + c12() + c14() + c15() + extras() + generic_rules() + seeded() if m["id"] not in drop]
+    ms = [m for m in c05() + c06() + c07() + c12() + c14() + c15() + extras() + generic_rules() + round3() + seeded() if m["id"] not in drop]
     return ms
